@@ -665,14 +665,7 @@ func rC09Sites(w *World, r *Report) {
 				ru.OK("stop-site/unknown-option", w.IPos(e.Instr), "stop at the first option-looking token that matches nothing, under requireOrder")
 			} else {
 				// after the command scan: every path from the loop head passes the range over ChildCommands
-				isScan := func(in ssa.Instruction) bool {
-					rg, ok := in.(*ssa.Range)
-					if !ok {
-						return false
-					}
-					_, ok = loadOfField(rg.X, m.fChildCommands)
-					return ok
-				}
+				isScan := m.isCommandScan
 				seen := m.ig.reachFromE(m.ig.after(m.mainNext), isScan, m.normalEdgeOK)
 				if seen[m.ig.idx[e.Instr]] {
 					ru.Bad("stop-site/positional", w.IPos(e.Instr), "require-order stop for a plain token can happen before the command scan: a subcommand name would stop the parse")
